@@ -145,6 +145,7 @@ def classify(t):
 # ---------------------------------------------------------------------------
 
 _enc = None
+GLUE_EVERY = int(os.environ.get('E2_GLUE_EVERY', '7'))
 
 
 def work(chunk):
@@ -199,7 +200,7 @@ def work(chunk):
             out["equal"] += 1
             # glue validation: solver-produced member / non-member of the SPEC language
             # must be accepted / rejected by the real Pattern::is_match
-            if idx % 7 == 0:
+            if idx % GLUE_EVERY == 0:
                 rs = e.spec_lang(specs[0], ab, ae, lp)
                 for positive in (True, False):
                     w = e.member(rs, positive)
@@ -278,40 +279,65 @@ def main():
     a = ap.parse_args()
     t0 = time.time()
     res = {"selftest_ok": selftest(a.driver)}
-    seen = set()
-    pats = []
+    # stream the family in batches so that memory stays bounded
+    BATCH = 20000
     famcount = {}
-    for fam, t in family(a.tier):
-        key = tuple(t)
-        if key in seen:
-            continue
-        seen.add(key)
-        pats.append((fam, t))
-        famcount[fam] = famcount.get(fam, 0) + 1
-        if a.limit and len(pats) >= a.limit:
-            break
-    jobs = []
-    lines = []
-    for i, (fam, t) in enumerate(pats):
-        for c in configs_for(fam, a.tier, i):
-            jobs.append([len(jobs), fam, t, c])
-            lines.append("T %s %s" % (cfgs(c), tok_line(t)))
-    recs = run_driver(a.driver, lines)
-    if len(recs) != len(jobs):
-        raise RuntimeError("driver answered %d of %d" % (len(recs), len(jobs)))
-    for j, r in zip(jobs, recs):
-        j.append(r)
-    res["driver_s"] = round(time.time() - t0, 1)
-    chunks = [jobs[i:i + 400] for i in range(0, len(jobs), 400)]
     tot = {"equal": 0, "skipped_unspecified": 0, "unknown": 0, "queries": 0, "solver_s": 0.0}
     cands, glue, samples = [], [], []
-    with mp.Pool(a.jobs) as pool:
+    npats = 0
+    npairs = 0
+    seen = set()
+    driver_s = 0.0
+
+    def flush(batch, pool):
+        nonlocal npairs, driver_s
+        jobs, lines = [], []
+        for fam, t in batch:
+            for c in configs_for(fam, a.tier, 0):
+                jobs.append([npairs + len(jobs), fam, t, c])
+                lines.append("T %s %s" % (cfgs(c), tok_line(t)))
+        td = time.time()
+        recs = run_driver(a.driver, lines)
+        driver_s += time.time() - td
+        if len(recs) != len(jobs):
+            raise RuntimeError("driver answered %d of %d" % (len(recs), len(jobs)))
+        for j, r in zip(jobs, recs):
+            j.append(r)
+        npairs += len(jobs)
+        chunks = [jobs[i:i + 400] for i in range(0, len(jobs), 400)]
         for o in pool.imap_unordered(work, chunks):
             for k in tot:
                 tot[k] += o[k]
-            cands += o["cands"]
-            glue += o["glue"]
-            samples += o["samples"]
+            if len(cands) < 20000:
+                cands.extend(o["cands"])
+            else:
+                tot["unknown"] += 0
+            glue.extend(o["glue"])
+            if len(samples) < 40:
+                samples.extend(o["samples"])
+
+    with mp.Pool(a.jobs) as pool:
+        batch = []
+        for fam, t in family(a.tier):
+            key = hash(tuple(t))
+            if key in seen:
+                continue
+            seen.add(key)
+            batch.append((fam, t))
+            npats += 1
+            famcount[fam] = famcount.get(fam, 0) + 1
+            if len(batch) >= BATCH:
+                flush(batch, pool)
+                batch = []
+                print("  ... %d patterns, %d pairs, %d equal, %d candidates (%.0fs)"
+                      % (npats, npairs, tot["equal"], len(cands), time.time() - t0), flush=True)
+            if a.limit and npats >= a.limit:
+                break
+        if batch:
+            flush(batch, pool)
+    res["driver_s"] = round(driver_s, 1)
+    pats = range(npats)
+    jobs = range(npairs)
     # native replay of candidates
     confirmed = []
     unconfirmed = []
